@@ -1,7 +1,438 @@
-/* tuplefn: C20 */
-struct vf_Log vf_glog;
-struct vf_Log *_ZN2vf5g_logEv(void) { return &vf_glog; }
-#include "vf_handler.h"
+/* tuplefn: pair, tuple and callable wrappers forward values and calls faithfully (C20); the call of an empty inplace_function
+ * reaches the contract-check handler without calling anything (C05).  Run-time VALUES, call counts and wrapper STATE only.
+ * Every harness starts from arbitrary (symbolic) element values / an arbitrary well-formed wrapper state; the callables are the
+ * driver's functors, which log (call count, argument values) into a vf::Log owned by the harness.
+ * Specifications: [pairs.pair] [pairs.spec] [tuple.cnstr] [tuple.elem] [tuple.rel] [tuple.apply] [func.invoke] [refwrap]
+ * [func.bind.front] [func.not.fn], P0792 (function_ref), SG14 inplace_function. */
+typedef struct etl_pair_int_int Pii; typedef struct etl_pair_long_long Qii;
+typedef struct etl_pair_int_char Pic; typedef struct etl_pair_long_int Qic;
+typedef struct etl_tuple_int_char Tic; typedef struct etl_tuple_int_int_int T3;
+typedef struct vf_Log Log; typedef struct vf_Fun Fun; typedef struct vf_Cnt Cnt; typedef struct vf_Sml Sml; typedef struct vf_S3 S3;
+typedef struct etl_reference_wrapper_int RW; typedef struct etl_detail_function_ref_false_int_int FR;
+typedef struct etl_inplace_function_int_int_16_8 IF; typedef struct etl_inplace_function_int_int_32_8 IFW;
+typedef struct etl_detail_inplace_func_vtable_int_int VT;
 
-/*@GROUP name=probe props=C20,C02 kind=F@*/
-void h_probe(void) { VF_INPUT(int, x); VF_ASSERT(nf_stateless(x) == !((x ^ 0x55) != 0), "probe"); VF_REACH(); }
+/* the log behind the free functions with a fixed signature (EXTERNAL ghost hook vf::g_log of the driver) */
+Log vf_glog;
+Log *_ZN2vf5g_logEv(void) { return &vf_glog; }
+
+/* ---- assertion handler.  harness/vf_handler.h cannot be used as it is: the only violating path of this family is
+ * etl::raise<bad_function_call>, and clang 14 (the lowering front end) does not define __cpp_consteval, so the lowered raise() is the
+ * variant WITHOUT source_location (line 0, file nullptr by the library's own design; g++ takes the source_location variant - the
+ * native replay prints its line).  The handler therefore checks the message instead of (file, line); everything else is the same:
+ * it must not fire for valid calls; for the violating call it must be reached with the wrapper and both call logs untouched. */
+int vf_expect_handler; int vf_handler_fired;
+Log vf_snap_log, vf_snap_glog; Log *vf_snap_log_of; IF vf_snap_f; IF *vf_snap_f_of;
+static _Bool log_eq(const Log *x, const Log *y) { return x->calls == y->calls && x->a0 == y->a0 && x->a1 == y->a1 && x->a2 == y->a2; }
+void _ZN3etl14assert_handlerINS_10assert_msgEEEvRKT_(struct etl_assert_msg *m)
+{
+    vf_handler_fired = 1;
+#ifdef VF_NATIVE
+    if (!vf_quiet) printf("REPLAY-HANDLER line=%d expected=%d\n", m->line, vf_expect_handler);
+    if (!vf_expect_handler) vf_fail("C05: assert_handler fired although the call respects the documented precondition");
+    vf_exit();
+#else
+    if (vf_expect_handler) {
+        __CPROVER_assert(m->expression != 0 && m->expression[0] == 'e' && m->expression[1] == 'm', "C05: handler receives the bad_function_call message");
+        __CPROVER_assert(log_eq(vf_snap_log_of, &vf_snap_log) && log_eq(&vf_glog, &vf_snap_glog), "C05: nothing was called when the handler runs (both call logs unchanged)");
+        _Bool same = vf_snap_f_of->_vtable == vf_snap_f._vtable;
+        same = same && ((unsigned long *)&vf_snap_f_of->_storage)[0] == ((unsigned long *)&vf_snap_f._storage)[0] && ((unsigned long *)&vf_snap_f_of->_storage)[1] == ((unsigned long *)&vf_snap_f._storage)[1];
+        __CPROVER_assert(same, "C05: the wrapper is unmodified when the assertion handler runs");
+        __CPROVER_assert(0, "VACUITY: the violating call reaches the assertion handler");
+    } else {
+        __CPROVER_assert(0, "C05: assert_handler fired although the call respects the documented precondition");
+    }
+    __CPROVER_assume(0);
+#endif
+}
+#define VF_NORETURN_EXPECTED() __CPROVER_assert(0, "C05: call with violated precondition returned normally instead of reaching the assertion handler")
+
+/* ---- reference semantics -------------------------------------------------------------------------------------------- */
+static int ENC3(int a, int b, int c) { return (int)((unsigned)a ^ ((unsigned)b << 11) ^ ((unsigned)c << 22)); }
+/* lexicographic three-way comparison of (first, second), built on < only ([pairs.spec]) */
+#define LEX(a, b) ((a).first < (b).first ? -1 : ((b).first < (a).first ? 1 : ((a).second < (b).second ? -1 : ((b).second < (a).second ? 1 : 0))))
+/* the functor was called exactly once with argument x (unary callables write a0 only) */
+static _Bool logged1(const Log *n, const Log *o, int x) { return n->calls == o->calls + 1u && n->a0 == x && n->a1 == o->a1 && n->a2 == o->a2; }
+static _Bool logged2(const Log *n, const Log *o, int x, int y) { return n->calls == o->calls + 1u && n->a0 == x && n->a1 == y && n->a2 == o->a2; }
+static _Bool logged3(const Log *n, const Log *o, int x, int y, int z) { return n->calls == o->calls + 1u && n->a0 == x && n->a1 == y && n->a2 == z; }
+
+#define PAIRS(X) X(ii, int, int, long, long) X(ic, int, char, long, int)
+#define TIC0(t) ((t)._impl.b0._value)
+#define TIC1(t) ((t)._impl.b1._value)
+#define T3_0(t) ((t)._impl.b0._value)
+#define T3_1(t) ((t)._impl.b1._value)
+#define T3_2(t) ((t)._impl.b2._value)
+
+/* ---- inplace_function<int(int),16,8>: wf(f) = f._vtable is the empty vtable or the vtable of a stored type -------------
+ * g__ZN3etl6detail12empty_vtableIiJiEEE = detail::empty_vtable<int,int>; g__ZZN3etl16inplace_functionIFiiELm16ELm8EEC1IRKN2vf3CntES5_EEOT_E2vt / g__ZZN3etl16inplace_functionIFiiELm16ELm8EEC1IN2vf3CntES5_EEOT_E2vt / g__ZZN3etl16inplace_functionIFiiELm16ELm8EEC1IRKN2vf3SmlES5_EEOT_E2vt = cxx2c's names of the function-local
+ * `static constexpr vtable_t vt` of inplace_function(T&&) for T = Cnt const&, Cnt (rvalue), Sml const&.
+ * In the native replay those objects live in the real object code: their addresses are obtained from constructed wrappers and
+ * the arbitrary state is produced through the constructors (the CBMC side writes the representation directly). */
+#ifdef VF_NATIVE
+static VT *VT_EMPTY, *VT_CNT_C, *VT_CNT_M, *VT_SML;
+static void vt_init(void) { IF t; Cnt c = {0, 0, 0}; Sml s = {0};
+  if_default(&t); VT_EMPTY = t._vtable; if_from_cnt(&t, &c); VT_CNT_C = t._vtable; if_from_cnt_rv(&t, &c); VT_CNT_M = t._vtable; if_from_sml(&t, &s); VT_SML = t._vtable; }
+#else
+#define VT_EMPTY ((VT *)&g__ZN3etl6detail12empty_vtableIiJiEEE)
+#define VT_CNT_C ((VT *)&g__ZZN3etl16inplace_functionIFiiELm16ELm8EEC1IRKN2vf3CntES5_EEOT_E2vt)
+#define VT_CNT_M ((VT *)&g__ZZN3etl16inplace_functionIFiiELm16ELm8EEC1IN2vf3CntES5_EEOT_E2vt)
+#define VT_SML ((VT *)&g__ZZN3etl16inplace_functionIFiiELm16ELm8EEC1IRKN2vf3SmlES5_EEOT_E2vt)
+#define vt_init() ((void)0)
+#endif
+/* abstract view: kind 0 empty, 1 holds a Cnt (log,k,n), 2 holds a Sml (k); -1 = not well-formed */
+typedef struct { int kind; Log *log; int k; unsigned n; } fview_t;
+static fview_t fview_vs(VT *vt, void *st) { fview_t v; v.kind = 0; v.log = 0; v.k = 0; v.n = 0;
+  if (vt == VT_CNT_C || vt == VT_CNT_M) { Cnt *c = (Cnt *)st; v.kind = 1; v.log = c->log; v.k = c->k; v.n = c->n; }
+  else if (vt == VT_SML) { v.kind = 2; v.k = ((Sml *)st)->k; }
+  else if (vt != VT_EMPTY) v.kind = -1;
+  return v; }
+static fview_t fview(IF *f) { return fview_vs(f->_vtable, &f->_storage); }
+static fview_t fview_w(IFW *f) { return fview_vs(f->_vtable, &f->_storage); }
+static _Bool fview_eq(fview_t x, fview_t y) { return x.kind == y.kind && x.kind >= 0 && (x.kind != 1 || (x.log == y.log && x.k == y.k && x.n == y.n)) && (x.kind != 2 || x.k == y.k); }
+static fview_t fview_empty(void) { fview_t v; v.kind = 0; v.log = 0; v.k = 0; v.n = 0; return v; }
+static void mk_if(IF *f, unsigned char sel, Log *lg, int k, unsigned n) {
+  vt_init(); __CPROVER_assume(sel <= 3);
+#ifdef VF_NATIVE
+  Cnt c = {lg, k, n}; Sml s = {k};
+  if (sel == 0) if_default(f); else if (sel == 1) if_from_cnt(f, &c); else if (sel == 2) if_from_cnt_rv(f, &c); else if_from_sml(f, &s);
+#else
+  f->_vtable = sel == 0 ? VT_EMPTY : (sel == 1 ? VT_CNT_C : (sel == 2 ? VT_CNT_M : VT_SML));
+  if (sel == 1 || sel == 2) { Cnt *c = (Cnt *)&f->_storage; c->log = lg; c->k = k; c->n = n; }
+  else if (sel == 3) ((Sml *)&f->_storage)->k = k;
+#endif
+}
+/* arbitrary well-formed wrapper: every byte symbolic, then the representation invariant */
+#define ARBF(f, lg) VF_INPUT(IF, f); VF_INPUT(unsigned char, f##_sel); VF_INPUT(int, f##_k); VF_INPUT(unsigned, f##_n); mk_if(&f, f##_sel, lg, f##_k, f##_n)
+/* reference semantics of a call on a view: result, the view afterwards, the effect on the log */
+static int sp_call_result(fview_t v, int x) { return v.kind == 1 ? (x ^ v.k ^ (int)(v.n + 1u)) : (int)((unsigned)x + (unsigned)v.k); }
+static fview_t sp_call_view(fview_t v) { if (v.kind == 1) v.n = v.n + 1u; return v; }
+static _Bool sp_call_logged(fview_t v, const Log *n, const Log *o, int x) { return v.kind == 1 ? logged1(n, o, x) : log_eq(n, o); }
+#define OBSERVERS(f, nonempty) (if_bool(&(f)) == (nonempty) && if_eq_null(&(f)) == !(nonempty) && if_null_eq(&(f)) == !(nonempty) && if_ne_null(&(f)) == (nonempty) && if_null_ne(&(f)) == (nonempty))
+
+/* ==== pair =========================================================================================================== */
+/*@GROUP name=pair_ctor props=C20,C02 kind=F@*/
+void h_pair_ctor(void) {
+#define X(S, T1, T2, W1, W2) VF_INPUT(P##S, p##S); VF_INPUT(T1, a##S); VF_INPUT(T2, b##S); VF_INPUT(unsigned char, w##S); VF_INPUT(short, sh##S); VF_INPUT(signed char, sc##S); T1 a0##S = a##S; T2 b0##S = b##S; \
+  if (w##S == 0) { p##S##_default(&p##S); VF_ASSERT(p##S.first == 0 && p##S.second == 0, "pair<" #T1 "," #T2 ">(): both elements value-initialised"); }               \
+  else if (w##S == 4) { p##S##_ctor_conv(&p##S, sh##S, sc##S); VF_ASSERT(p##S.first == sh##S && p##S.second == sc##S, "pair<" #T1 "," #T2 ">(short&, signed char&): each element converted from its argument"); } \
+  else { if (w##S == 1) p##S##_ctor_val(&p##S, &a##S, &b##S); else if (w##S == 2) p##S##_ctor_fwd(&p##S, a##S, b##S); else p##S##_make(&p##S, a##S, b##S);              \
+    VF_ASSERT(p##S.first == a0##S && p##S.second == b0##S, "pair<" #T1 "," #T2 ">(x,y), pair(U1&&,U2&&), make_pair(x,y): first == x, second == y");                    \
+    VF_ASSERT(a##S == a0##S && b##S == b0##S, "construction leaves the arguments unchanged"); }
+  PAIRS(X)
+#undef X
+  VF_REACH(); }
+
+/*@GROUP name=pair_copy_assign props=C20,C02 kind=F@*/
+void h_pair_copy_assign(void) {
+#define X(S, T1, T2, W1, W2) VF_INPUT(P##S, s##S); VF_INPUT(P##S, t##S); VF_INPUT(Q##S, q##S); VF_INPUT(unsigned char, w##S); T1 f##S = s##S.first; T2 g##S = s##S.second; \
+  __CPROVER_assume(w##S <= 7);                                                                                                                                         \
+  if (w##S == 0) p##S##_copy(&t##S, &s##S); else if (w##S == 1) p##S##_move(&t##S, &s##S); else if (w##S == 2) p##S##_assign(&t##S, &s##S); else if (w##S == 3) p##S##_move_assign(&t##S, &s##S); \
+  else if (w##S == 4) p##S##_conv_copy(&q##S, &s##S); else if (w##S == 5) p##S##_conv_move(&q##S, &s##S); else if (w##S == 6) p##S##_conv_assign(&q##S, &s##S); else p##S##_conv_move_assign(&q##S, &s##S); \
+  if (w##S <= 3) VF_ASSERT(t##S.first == f##S && t##S.second == g##S, "pair<" #T1 "," #T2 "> copy/move construction and assignment: target == source, element by element"); \
+  else VF_ASSERT(q##S.first == (W1)f##S && q##S.second == (W2)g##S, "pair<" #W1 "," #W2 "> converting construction/assignment from pair<" #T1 "," #T2 ">: each element converted"); \
+  VF_ASSERT(s##S.first == f##S && s##S.second == g##S, "the source keeps its element values (scalar elements: a move is a copy)");
+  PAIRS(X)
+#undef X
+  VF_REACH(); }
+
+/*@GROUP name=pair_self_assign props=C20,C02 kind=F@*/
+void h_pair_self_assign(void) {
+#define X(S, T1, T2, W1, W2) VF_INPUT(P##S, s##S); VF_INPUT_BOOL(mv##S); T1 f##S = s##S.first; T2 g##S = s##S.second;                                                  \
+  if (mv##S) p##S##_move_assign(&s##S, &s##S); else p##S##_assign(&s##S, &s##S);                                                                                       \
+  VF_ASSERT(s##S.first == f##S && s##S.second == g##S, "pair<" #T1 "," #T2 "> self-assignment keeps both elements");
+  PAIRS(X)
+#undef X
+  VF_REACH(); }
+
+/*@GROUP name=pair_swap props=C20,C02 kind=F@*/
+void h_pair_swap(void) {
+#define X(S, T1, T2, W1, W2) VF_INPUT(P##S, a##S); VF_INPUT(P##S, b##S); VF_INPUT_BOOL(fr##S); VF_INPUT_BOOL(self##S); P##S oa##S = a##S, ob##S = b##S;                   \
+  if (self##S) { if (fr##S) p##S##_swap_free(&a##S, &a##S); else p##S##_swap(&a##S, &a##S);                                                                             \
+    VF_ASSERT(a##S.first == oa##S.first && a##S.second == oa##S.second, "pair<" #T1 "," #T2 "> self-swap keeps both elements"); }                                       \
+  else { if (fr##S) p##S##_swap_free(&a##S, &b##S); else p##S##_swap(&a##S, &b##S);                                                                                     \
+    VF_ASSERT(a##S.first == ob##S.first && a##S.second == ob##S.second && b##S.first == oa##S.first && b##S.second == oa##S.second, "pair<" #T1 "," #T2 ">::swap / swap(x,y) exchange first with first and second with second"); }
+  PAIRS(X)
+#undef X
+  VF_REACH(); }
+
+/*@GROUP name=pair_get props=C20,C02 kind=F@*/
+void h_pair_get(void) {
+#define X(S, T1, T2, W1, W2) VF_INPUT(P##S, p##S); P##S o##S = p##S;                                                                                                   \
+  VF_ASSERT(p##S##_get0(&p##S) == &p##S.first && p##S##_get1(&p##S) == &p##S.second, "get<0>/get<1>(pair&) refer to first/second of the same object");                  \
+  VF_ASSERT(p##S##_cget0(&p##S) == &p##S.first && p##S##_cget1(&p##S) == &p##S.second, "get<0>/get<1>(pair const&) refer to first/second of the same object");          \
+  VF_ASSERT(p##S##_rget0(&p##S) == o##S.first && p##S##_rget1(&p##S) == o##S.second, "get<I>(pair&&) delivers the element value");                                      \
+  VF_ASSERT(p##S.first == o##S.first && p##S.second == o##S.second, "get leaves the pair unchanged");
+  PAIRS(X)
+#undef X
+  VF_INPUT(Pic, q); VF_INPUT(char, c); char c0 = c; int r = pic_sb(&q, &c);
+  VF_ASSERT(r == q.first && c == q.second, "structured binding `auto [a, b] = p` delivers first and second"); (void)c0;
+  VF_REACH(); }
+
+/*@GROUP name=pair_rel props=C20,C02 kind=F@*/
+void h_pair_rel(void) {
+#define X(S, T1, T2, W1, W2) VF_INPUT(P##S, a##S); VF_INPUT(P##S, b##S); int c##S = LEX(a##S, b##S); _Bool e##S = a##S.first == b##S.first && a##S.second == b##S.second; \
+  VF_ASSERT(p##S##_eq(&a##S, &b##S) == e##S && p##S##_ne(&a##S, &b##S) == !e##S, "pair<" #T1 "," #T2 "> == / != : both elements equal");                                \
+  VF_ASSERT(p##S##_lt(&a##S, &b##S) == (c##S < 0) && p##S##_le(&a##S, &b##S) == (c##S <= 0) && p##S##_gt(&a##S, &b##S) == (c##S > 0) && p##S##_ge(&a##S, &b##S) == (c##S >= 0), \
+            "pair<" #T1 "," #T2 "> <, <=, >, >= are the lexicographic comparison (first, then second; ties on first are inside the domain)");                        \
+
+  PAIRS(X)
+#undef X
+  VF_REACH(); }
+
+/* ==== tuple ========================================================================================================== */
+/*@GROUP name=tuple_ctor props=C20,C02 kind=F@*/
+void h_tuple_ctor(void) { VF_INPUT(Tic, t); VF_INPUT(T3, u); VF_INPUT(int, a); VF_INPUT(char, b); VF_INPUT(int, c); VF_INPUT(int, d); VF_INPUT(short, sh); VF_INPUT(unsigned char, w);
+  int a0 = a, c0 = c, d0 = d; char b0 = b;
+  if (w == 0) { tic_default(&t); t3_default(&u); VF_ASSERT(TIC0(t) == 0 && TIC1(t) == 0 && T3_0(u) == 0 && T3_1(u) == 0 && T3_2(u) == 0, "tuple(): every element value-initialised"); }
+  else if (w == 4) { tic_ctor_conv(&t, sh, b); VF_ASSERT(TIC0(t) == sh && TIC1(t) == b0, "tuple<int,char>(short&, char&): each element converted from its argument"); }
+  else { if (w == 1) { tic_ctor_val(&t, &a, &b); t3_ctor_val(&u, &a, &c, &d); } else if (w == 2) { tic_ctor_fwd(&t, a, b); t3_ctor_fwd(&u, a, c, d); } else { tic_make(&t, a, b); t3_make(&u, a, c, d); }
+    VF_ASSERT(TIC0(t) == a0 && TIC1(t) == b0, "tuple<int,char>(x,y), tuple(U&&...), make_tuple: element I == argument I");
+    VF_ASSERT(T3_0(u) == a0 && T3_1(u) == c0 && T3_2(u) == d0, "tuple<int,int,int>(x,y,z), tuple(U&&...), make_tuple: element I == argument I (no permutation)");
+    VF_ASSERT(a == a0 && b == b0 && c == c0 && d == d0, "construction leaves the arguments unchanged"); }
+  VF_REACH(); }
+
+/*@GROUP name=tuple_copy props=C20,C02 kind=F@*/
+void h_tuple_copy(void) { VF_INPUT(Tic, s); VF_INPUT(Tic, t); VF_INPUT(T3, u); VF_INPUT(T3, v); VF_INPUT_BOOL(mv); Tic os = s; T3 ou = u;
+  if (mv) { tic_move(&t, &s); t3_move(&v, &u); } else { tic_copy(&t, &s); t3_copy(&v, &u); }
+  VF_ASSERT(TIC0(t) == TIC0(os) && TIC1(t) == TIC1(os) && T3_0(v) == T3_0(ou) && T3_1(v) == T3_1(ou) && T3_2(v) == T3_2(ou), "tuple copy/move construction: element I of the target == element I of the source");
+  VF_ASSERT(TIC0(s) == TIC0(os) && TIC1(s) == TIC1(os) && T3_0(u) == T3_0(ou) && T3_1(u) == T3_1(ou) && T3_2(u) == T3_2(ou), "the source keeps its element values");
+  VF_REACH(); }
+
+/*@GROUP name=tuple_get props=C20,C02 kind=F@*/
+void h_tuple_get(void) { VF_INPUT(Tic, t); VF_INPUT(T3, u); Tic ot = t; T3 ou = u;
+  VF_ASSERT(tic_get0(&t) == &TIC0(t) && tic_get1(&t) == &TIC1(t) && tic_cget0(&t) == &TIC0(t) && tic_cget1(&t) == &TIC1(t), "get<I>(tuple<int,char>&/const&) refers to element I of the same object");
+  VF_ASSERT(t3_get0(&u) == &T3_0(u) && t3_get1(&u) == &T3_1(u) && t3_get2(&u) == &T3_2(u) && t3_cget0(&u) == &T3_0(u) && t3_cget1(&u) == &T3_1(u) && t3_cget2(&u) == &T3_2(u), "get<I>(tuple<int,int,int>&/const&) refers to element I of the same object");
+  VF_ASSERT(tic_rget0(&t) == TIC0(ot) && tic_rget1(&t) == TIC1(ot) && t3_rget2(&u) == T3_2(ou), "get<I>(tuple&&) delivers the element value");
+  VF_ASSERT(TIC0(t) == TIC0(ot) && TIC1(t) == TIC1(ot) && T3_0(u) == T3_0(ou) && T3_1(u) == T3_1(ou) && T3_2(u) == T3_2(ou), "get leaves the tuple unchanged");
+  VF_REACH(); }
+
+/*@GROUP name=tuple_swap props=C20,C02 kind=F@*/
+void h_tuple_swap(void) { VF_INPUT(Tic, a); VF_INPUT(Tic, b); VF_INPUT(T3, c); VF_INPUT(T3, d); VF_INPUT_BOOL(self); Tic oa = a, ob = b; T3 oc = c, od = d;
+  if (self) { tic_swap(&a, &a); t3_swap(&c, &c);
+    VF_ASSERT(TIC0(a) == TIC0(oa) && TIC1(a) == TIC1(oa) && T3_0(c) == T3_0(oc) && T3_1(c) == T3_1(oc) && T3_2(c) == T3_2(oc), "tuple self-swap keeps every element"); }
+  else { tic_swap(&a, &b); t3_swap(&c, &d);
+    VF_ASSERT(TIC0(a) == TIC0(ob) && TIC1(a) == TIC1(ob) && TIC0(b) == TIC0(oa) && TIC1(b) == TIC1(oa), "tuple<int,char>::swap exchanges element I with element I");
+    VF_ASSERT(T3_0(c) == T3_0(od) && T3_1(c) == T3_1(od) && T3_2(c) == T3_2(od) && T3_0(d) == T3_0(oc) && T3_1(d) == T3_1(oc) && T3_2(d) == T3_2(oc), "tuple<int,int,int>::swap exchanges element I with element I"); }
+  VF_REACH(); }
+
+/*@GROUP name=tuple_eq props=C20,C02 kind=F@*/
+void h_tuple_eq(void) { VF_INPUT(Tic, a); VF_INPUT(Tic, b); VF_INPUT(T3, c); VF_INPUT(T3, d);
+  _Bool e2 = TIC0(a) == TIC0(b) && TIC1(a) == TIC1(b); _Bool e3 = T3_0(c) == T3_0(d) && T3_1(c) == T3_1(d) && T3_2(c) == T3_2(d);
+  VF_ASSERT(tic_eq(&a, &b) == e2 && tic_ne(&a, &b) == !e2, "tuple<int,char> == / != : all elements equal");
+  VF_ASSERT(t3_eq(&c, &d) == e3 && t3_ne(&c, &d) == !e3, "tuple<int,int,int> == / != : all elements equal (a difference in the last element only is inside the domain)");
+
+  VF_REACH(); }
+
+/*@GROUP name=tuple_apply props=C20,C02 kind=F@*/
+void h_tuple_apply(void) { VF_INPUT(Log, l); VF_INPUT(T3, u); VF_INPUT(Tic, t); VF_INPUT(Pic, p); VF_INPUT(int, a); VF_INPUT(int, b); VF_INPUT(int, c); VF_INPUT(unsigned char, w);
+  Log o = l; T3 ou = u; Tic ot = t; Pic op = p; __CPROVER_assume(w <= 4);
+  if (w == 0) { int r = t3_apply(&l, &u);
+    VF_ASSERT(logged3(&l, &o, T3_0(ou), T3_1(ou), T3_2(ou)), "apply(f, tuple<int,int,int>): f called exactly once with (get<0>, get<1>, get<2>) in this order");
+    VF_ASSERT(r == ENC3(T3_0(ou), T3_1(ou), T3_2(ou)), "apply returns f's result unchanged"); }
+  else if (w == 1) { int r = tic_apply(&l, &t);
+    VF_ASSERT(logged2(&l, &o, TIC0(ot), TIC1(ot)) && r == ENC3(TIC0(ot), TIC1(ot), 0), "apply(f, tuple<int,char>): called once with (get<0>, get<1>), result unchanged"); }
+  else if (w == 2) { int r = pic_apply(&l, &p);
+    VF_ASSERT(logged2(&l, &o, op.first, op.second) && r == ENC3(op.first, op.second, 0), "apply(f, pair<int,char>): called once with (first, second), result unchanged"); }
+  else if (w == 3) { t3_apply_mut(&u);
+    VF_ASSERT(T3_0(u) == T3_2(ou) && T3_2(u) == T3_1(ou) && T3_1(u) == T3_0(ou), "apply(f, tuple&) passes the elements themselves (by reference): f's writes land in the tuple"); }
+  else { int r = t_fat_apply(&l, a, b, c);
+    VF_ASSERT(logged3(&l, &o, a, b, c) && r == ENC3(a, b, c), "apply(f, forward_as_tuple(x,y,z)): called once with (x,y,z), result unchanged"); }
+  if (w != 3) VF_ASSERT(T3_0(u) == T3_0(ou) && T3_1(u) == T3_1(ou) && T3_2(u) == T3_2(ou) && TIC0(t) == TIC0(ot) && TIC1(t) == TIC1(ot) && p.first == op.first && p.second == op.second, "apply leaves the tuple unchanged");
+  VF_REACH(); }
+
+/*@GROUP name=tuple_make_from props=C20,C02 kind=F@*/
+void h_tuple_make_from(void) { VF_INPUT(T3, u); VF_INPUT(Tic, t); VF_INPUT(Pic, p); VF_INPUT(S3, s); VF_INPUT(Pic, pr); VF_INPUT(Tic, tr);
+  t3_make_from(&s, &u); VF_ASSERT(s.a == T3_0(u) && s.b == T3_1(u) && s.c == T3_2(u), "make_from_tuple<S>(tuple<int,int,int>): S(get<0>, get<1>, get<2>)");
+  tic_make_from(&pr, &t); VF_ASSERT(pr.first == TIC0(t) && pr.second == TIC1(t), "make_from_tuple<pair<int,char>>(tuple<int,char>)");
+  pic_make_from(&tr, &p); VF_ASSERT(TIC0(tr) == p.first && TIC1(tr) == p.second, "make_from_tuple<tuple<int,char>>(pair<int,char>)");
+  VF_REACH(); }
+
+/*@GROUP name=tuple_tie props=C20,C02 kind=F@*/
+void h_tuple_tie(void) { VF_INPUT(int, a); VF_INPUT(char, b); VF_INPUT(int, c); VF_INPUT(char, d); VF_INPUT(int, x); VF_INPUT(char, y);
+  VF_ASSERT(t_tie_eq(&a, &b, &c, &d) == (a == c && b == d), "tie(a,b) == tie(c,d) compares the referenced objects");
+  VF_ASSERT(t_fat_addr0(&a, b) == &a, "get<0>(forward_as_tuple(a, ...)) is a itself");
+  t_tie_store(&a, &b, x, y); VF_ASSERT(a == x && b == y, "get<I>(tie(a,b)) = v writes through to the tied object");
+  VF_REACH(); }
+
+/* ==== invoke, reference_wrapper, function_ref, bind_front, not_fn ===================================================== */
+/*@GROUP name=invoke props=C20,C02 kind=F@*/
+void h_invoke(void) { VF_INPUT(Log, l); VF_INPUT(int, x); VF_INPUT(int, y); VF_INPUT(int, k); VF_INPUT(unsigned char, w); __CPROVER_assume(w <= 7); Log o = l; Fun f; f.log = &l; f.k = k;
+  if (w <= 1) { int r = w == 0 ? iv_free(&l, x, y) : iv_fptr(&l, x, y);
+    VF_ASSERT(logged2(&l, &o, x, y), "invoke(free function / function pointer, l, x, y): called exactly once with the same arguments in the same order");
+    VF_ASSERT(r == ENC3(x, y, 0), "invoke returns the result unchanged"); }
+  else if (w <= 5) { int r = w == 2 ? iv_fun(&f, x) : (w == 3 ? iv_cfun(&f, x) : (w == 4 ? iv_rfun(&l, k, x) : iv_lambda(&l, k, x)));
+    VF_ASSERT(logged1(&l, &o, x), "invoke(functor lvalue / const lvalue / rvalue / lambda, x): called exactly once with x");
+    VF_ASSERT(r == (x ^ k), "invoke returns the callable's result unchanged"); }
+  else if (w == 6) { long r = ivr_long(&f, x); VF_ASSERT(logged1(&l, &o, x) && r == (long)(x ^ k), "invoke_r<long>: called once with x, result converted to long"); }
+  else { ivr_void(&f, x); VF_ASSERT(logged1(&l, &o, x), "invoke_r<void>: called once with x, result discarded"); }
+  VF_ASSERT(f.log == &l && f.k == k, "the callable is unchanged");
+  VF_REACH(); }
+
+/*@GROUP name=refwrap props=C20,C02 kind=F@*/
+void h_refwrap(void) { VF_INPUT(int, a); VF_INPUT(int, b); VF_INPUT(int, v); VF_INPUT(RW, r); VF_INPUT(RW, q); VF_INPUT(unsigned char, w); VF_INPUT(Log, l); VF_INPUT(int, x); VF_INPUT(int, k);
+  int a0 = a, b0 = b; Log o = l; Fun f; f.log = &l; f.k = k; __CPROVER_assume(w <= 8);
+  if (w == 0) { rw_ctor(&r, &a); VF_ASSERT(r._ptr == &a, "reference_wrapper(x) refers to x"); }
+  else if (w == 1) { rw_ref(&r, &a); VF_ASSERT(r._ptr == &a, "ref(x) refers to x"); }
+  else if (w == 2) { q._ptr = &a; rw_ref_rw(&r, &q); VF_ASSERT(r._ptr == &a && q._ptr == &a, "ref(reference_wrapper) refers to the same object"); }
+  else if (w == 3) { q._ptr = &a; rw_copy(&r, &q); VF_ASSERT(r._ptr == &a && q._ptr == &a, "copy construction refers to the same object"); }
+  else if (w == 4) { r._ptr = &a; VF_ASSERT(rw_get(&r) == &a && rw_conv(&r) == &a && rw_cref(&a) == &a, "get(), operator T&() and cref(x).get() are the referenced object itself"); }
+  else if (w == 5) { r._ptr = &a; q._ptr = &b; rw_assign(&r, &q);
+    VF_ASSERT(r._ptr == &b && q._ptr == &b && a == a0 && b == b0, "assignment rebinds: no value is copied between the referenced objects");
+    *rw_get(&r) = v; VF_ASSERT(b == v && a == a0, "a write through the rebound wrapper lands in the new target only"); }
+  else { int res = w == 6 ? rwf_call(&f, x) : (w == 7 ? rwf_call_c(&f, x) : rwf_invoke(&f, x));
+    VF_ASSERT(logged1(&l, &o, x) && res == (x ^ k), "reference_wrapper<F>::operator() / invoke(ref(f), x): the referenced callable is called exactly once with x, result unchanged");
+    VF_ASSERT(f.log == &l && f.k == k, "the referenced callable is unchanged"); }
+  VF_REACH(); }
+
+/*@GROUP name=function_ref props=C20,C02 kind=F when=VF_FUNCTION_REF@*/
+void h_function_ref(void) { VF_INPUT(Log, l); VF_INPUT(Log, l2); VF_INPUT(Log, gl); VF_INPUT(int, x); VF_INPUT(int, k); VF_INPUT(int, k2); VF_INPUT(FR, r); VF_INPUT(FR, q); VF_INPUT(unsigned char, w);
+  __CPROVER_assume(w <= 4); vf_glog = gl; Log o = l, o2 = l2; Fun f; f.log = &l; f.k = k; Fun f2; f2.log = &l2; f2.k = k2;
+  if (w <= 1) { if (w == 0) fr_from_fun(&r, &f); else fr_from_cfun(&r, &f);
+    VF_ASSERT(r._obj == (void *)&f && log_eq(&l, &o), "function_ref(f) refers to f and does not call it");
+    int res = fr_call(&r, x); VF_ASSERT(logged1(&l, &o, x) && res == (x ^ k), "function_ref::operator()(x): the referenced callable is called exactly once with x, result unchanged"); }
+  else if (w == 2) { fr_from_free(&r); int res = fr_call(&r, x);
+    VF_ASSERT(logged1(&vf_glog, &gl, x) && res == (x ^ 0x55), "function_ref(free function): called exactly once with x, result unchanged"); }
+  else if (w == 3) { fr_from_fun(&q, &f); fr_copy(&r, &q);
+    VF_ASSERT(r._obj == q._obj && r._callable == q._callable, "copy construction: same target");
+    int res = fr_call(&r, x); VF_ASSERT(logged1(&l, &o, x) && res == (x ^ k), "a copy calls the same target"); }
+  else { fr_from_fun(&q, &f); fr_from_fun(&r, &f2); fr_assign(&r, &q);
+    VF_ASSERT(r._obj == (void *)&f && r._callable == q._callable, "assignment rebinds to the source's target");
+    int res = fr_call(&r, x); VF_ASSERT(logged1(&l, &o, x) && res == (x ^ k) && log_eq(&l2, &o2), "after rebinding only the new target is called"); }
+  if (w != 2) VF_ASSERT(log_eq(&vf_glog, &gl), "no other callable is called");
+  VF_ASSERT(f.log == &l && f.k == k, "the referenced callable is unchanged");
+  VF_REACH(); }
+
+/*@GROUP name=function_ref_copy props=C20,C02 kind=F when=VF_FUNCTION_REF@*/
+void h_function_ref_copy(void) { VF_INPUT(FR, s); VF_INPUT(FR, t); VF_INPUT_BOOL(as); FR os = s; /* arbitrary representation (_obj, _callable) */
+  if (as) fr_assign(&t, &s); else fr_copy(&t, &s);
+  VF_ASSERT(t._obj == os._obj && t._callable == os._callable && s._obj == os._obj && s._callable == os._callable, "function_ref copy construction / assignment copy (object, thunk) and leave the source unchanged");
+  VF_REACH(); }
+
+/*@GROUP name=bind_front props=C20,C02 kind=F@*/
+void h_bind_front(void) { VF_INPUT(Log, l); VF_INPUT(int, a); VF_INPUT(int, b); VF_INPUT(int, a2); VF_INPUT(int, x); VF_INPUT(unsigned char, w); __CPROVER_assume(w <= 4); Log o = l;
+  if (w <= 2) { int r = bf_call(&l, a, b, a2, x, w);
+    VF_ASSERT(logged3(&l, &o, a, b, x), "bind_front(f,a,b)(x) [&, const&, && call operators]: f called exactly once with (a, b, x): bound arguments first, as captured BY VALUE at bind time");
+    VF_ASSERT(r == ENC3(a, b, x), "bind_front returns f's result unchanged"); }
+  else if (w == 3) { int r = bf_ref(&l, a, a2, b, x);
+    VF_ASSERT(logged3(&l, &o, a2, b, x) && r == ENC3(a2, b, x), "bind_front(f, ref(a), b)(x): a reference_wrapper argument is bound by reference (the value at call time is delivered)"); }
+  else { int r = bf_all(&l, a, b, x); VF_ASSERT(logged3(&l, &o, a, b, x) && r == ENC3(a, b, x), "bind_front(f,a,b,c)(): all arguments bound"); }
+  VF_REACH(); }
+
+/*@GROUP name=not_fn props=C20,C02 kind=F@*/
+void h_not_fn(void) { VF_INPUT(Log, l); VF_INPUT(Log, gl); VF_INPUT(int, x); VF_INPUT(int, k); VF_INPUT(unsigned char, w); __CPROVER_assume(w <= 3); vf_glog = gl; Log o = l; Fun f; f.log = &l; f.k = k;
+  if (w <= 2) { _Bool r = nf_call(&f, x, w);
+    VF_ASSERT(logged1(&l, &o, x) && log_eq(&vf_glog, &gl), "not_fn(f)(x) [&, const&, && call operators]: f called exactly once with x");
+    VF_ASSERT(r == !((x ^ k) != 0), "not_fn(f)(x) == !f(x)"); }
+  else { _Bool r = nf_stateless(x);
+    VF_ASSERT(logged1(&vf_glog, &gl, x) && log_eq(&l, &o), "not_fn<&free_function>()(x): called exactly once with x");
+    VF_ASSERT(r == !((x ^ 0x55) != 0), "not_fn<fn>()(x) == !fn(x)"); }
+  VF_ASSERT(f.log == &l && f.k == k, "the callable is unchanged");
+  VF_REACH(); }
+
+/* ==== inplace_function<int(int),16,8> ================================================================================ */
+/*@GROUP name=ipf_ctors props=C20,C02,C05 kind=F@*/
+void h_ipf_ctors(void) { VF_INPUT(IF, f); /* indeterminate storage */ VF_INPUT(Log, l); VF_INPUT(int, k); VF_INPUT(unsigned, n); VF_INPUT(int, x); VF_INPUT(unsigned char, w); __CPROVER_assume(w <= 4); vt_init();
+  Log o = l; Cnt c; c.log = &l; c.k = k; c.n = n; Sml s; s.k = k; fview_t e = fview_empty();
+  if (w == 0) if_default(&f); else if (w == 1) if_nullptr(&f);
+  else if (w == 2) { if_from_cnt(&f, &c); e.kind = 1; e.log = &l; e.k = k; e.n = n; }
+  else if (w == 3) { if_from_cnt_rv(&f, &c); e.kind = 1; e.log = &l; e.k = k; e.n = n; }
+  else { if_from_sml(&f, &s); e.kind = 2; e.k = k; }
+  VF_ASSERT(fview_eq(fview(&f), e), "inplace_function(), (nullptr): empty; (callable): holds a copy of the callable (well-formed in every case)");
+  VF_ASSERT(OBSERVERS(f, e.kind != 0), "operator bool and the four comparisons with nullptr report emptiness");
+  VF_ASSERT(log_eq(&l, &o) && c.log == &l && c.k == k && c.n == n && s.k == k, "construction calls nothing and leaves the argument unchanged");
+  if (e.kind != 0) { int r = if_call(&f, x);
+    VF_ASSERT(r == sp_call_result(e, x) && sp_call_logged(e, &l, &o, x), "operator()(x): the stored callable is called exactly once with x, result unchanged");
+    VF_ASSERT(fview_eq(fview(&f), sp_call_view(e)) && c.n == n, "the call acts on the stored copy, not on the argument it was constructed from"); }
+  VF_REACH(); }
+
+/*@GROUP name=ipf_copy_move props=C20,C02,C05 kind=F@*/
+void h_ipf_copy_move(void) { VF_INPUT(Log, ls); VF_INPUT(Log, lt); ARBF(s, &ls); VF_INPUT(IF, t); VF_INPUT(unsigned char, t_sel); VF_INPUT(int, t_k); VF_INPUT(unsigned, t_n); VF_INPUT(unsigned char, w); VF_INPUT(int, x);
+  __CPROVER_assume(w <= 3); fview_t os = fview(&s); Log o = ls, ot = lt;
+  if (w == 0) if_copy(&t, &s); /* t: indeterminate storage */
+  else if (w == 1) { mk_if(&t, t_sel, &lt, t_k, t_n); if_assign(&t, &s); }
+  else if (w == 2) if_move(&t, &s);
+  else { mk_if(&t, t_sel, &lt, t_k, t_n); if_move_assign(&t, &s); }
+  VF_ASSERT(fview_eq(fview(&t), os), "copy/move construction and assignment over all (empty, Cnt, Sml) x (empty, Cnt, Sml) pairs: target == old source");
+  VF_ASSERT(fview_eq(fview(&s), w <= 1 ? os : fview_empty()), "copy leaves the source unchanged; move leaves it empty");
+  VF_ASSERT(OBSERVERS(t, os.kind != 0) && OBSERVERS(s, w <= 1 && os.kind != 0), "operator bool / nullptr comparisons follow the state");
+  VF_ASSERT(log_eq(&ls, &o) && log_eq(&lt, &ot), "copying / moving calls nothing");
+  if (os.kind != 0) { int r = if_call(&t, x);
+    VF_ASSERT(r == sp_call_result(os, x) && sp_call_logged(os, &ls, &o, x) && log_eq(&lt, &ot), "the copy calls an equivalent target: same result as the source for an arbitrary argument, exactly one call");
+    VF_ASSERT(fview_eq(fview(&t), sp_call_view(os)), "the call advances the copy's own state");
+    if (w <= 1) { VF_ASSERT(fview_eq(fview(&s), os), "independent state: calling the copy leaves the source's callable unchanged");
+      Log o2 = ls; int r2 = if_call(&s, x); VF_ASSERT(r2 == r && sp_call_logged(os, &ls, &o2, x), "the source, called with the same argument, gives the same result"); } }
+  VF_REACH(); }
+
+/*@GROUP name=ipf_assign props=C20,C02,C05 kind=F@*/
+void h_ipf_assign(void) { VF_INPUT(Log, lf); VF_INPUT(Log, l); ARBF(f, &lf); VF_INPUT(int, k); VF_INPUT(unsigned, n); VF_INPUT(int, x); VF_INPUT(unsigned char, w); __CPROVER_assume(w <= 2);
+  Log of = lf, o = l; Cnt c; c.log = &l; c.k = k; c.n = n; Sml s; s.k = k; fview_t e = fview_empty();
+  if (w == 0) if_assign_null(&f); else if (w == 1) { if_assign_cnt(&f, &c); e.kind = 1; e.log = &l; e.k = k; e.n = n; } else { if_assign_sml(&f, &s); e.kind = 2; e.k = k; }
+  VF_ASSERT(fview_eq(fview(&f), e), "= nullptr: empty; = callable: holds a copy of the callable (from every well-formed state)");
+  VF_ASSERT(OBSERVERS(f, e.kind != 0) && log_eq(&lf, &of) && log_eq(&l, &o) && c.n == n && c.k == k && c.log == &l && s.k == k, "assignment calls nothing and leaves the argument unchanged");
+  if (e.kind != 0) { int r = if_call(&f, x); VF_ASSERT(r == sp_call_result(e, x) && sp_call_logged(e, &l, &o, x) && log_eq(&lf, &of), "the newly assigned callable (and only it) is called"); }
+  VF_REACH(); }
+
+/*@GROUP name=ipf_swap props=C20,C02,C05 kind=F@*/
+void h_ipf_swap(void) { VF_INPUT(Log, la); VF_INPUT(Log, lb); ARBF(a, &la); ARBF(b, &lb); VF_INPUT_BOOL(fr); VF_INPUT(int, x); fview_t oa = fview(&a), ob = fview(&b); Log o1 = la, o2 = lb;
+  if (fr) if_swap_free(&a, &b); else if_swap(&a, &b);
+  VF_ASSERT(fview_eq(fview(&a), ob) && fview_eq(fview(&b), oa), "swap exchanges the stored callables over all nine (empty, Cnt, Sml) pairs");
+  VF_ASSERT(OBSERVERS(a, ob.kind != 0) && OBSERVERS(b, oa.kind != 0) && log_eq(&la, &o1) && log_eq(&lb, &o2), "swap calls nothing; emptiness is exchanged");
+  if (ob.kind != 0) { int r = if_call(&a, x); VF_ASSERT(r == sp_call_result(ob, x) && sp_call_logged(ob, &lb, &o2, x) && log_eq(&la, &o1) && fview_eq(fview(&b), oa), "after swap a calls b's former target only"); }
+  VF_REACH(); }
+
+/*@GROUP name=ipf_self_assign props=C20,C02,C05 kind=F@*/
+void h_ipf_self_assign(void) { VF_INPUT(Log, la); ARBF(a, &la); VF_INPUT_BOOL(mv); fview_t oa = fview(&a); Log o = la;
+  if (mv) if_move_assign(&a, &a); else if_assign(&a, &a);
+  VF_ASSERT(fview_eq(fview(&a), oa) && log_eq(&la, &o), "self-assignment (copy and move) keeps the stored callable and calls nothing");
+  VF_REACH(); }
+
+/*@GROUP name=ipf_call props=C20,C02,C05 kind=F@*/
+void h_ipf_call(void) { VF_INPUT(Log, l); VF_INPUT(Log, gl); ARBF(f, &l); VF_INPUT(int, x); VF_INPUT(int, y); fview_t of = fview(&f); Log o = l; vf_glog = gl; __CPROVER_assume(of.kind != 0);
+  VF_ASSERT(OBSERVERS(f, 1), "a wrapper holding a callable is not empty");
+  int r = if_call(&f, x);
+  VF_ASSERT(r == sp_call_result(of, x) && sp_call_logged(of, &l, &o, x) && log_eq(&vf_glog, &gl), "operator()(x) from every non-empty state: the stored callable is called exactly once with x, result unchanged, nothing else is called");
+  VF_ASSERT(fview_eq(fview(&f), sp_call_view(of)), "the wrapper still holds the same callable (its own state advanced by one call)");
+  Log o2 = l; int r2 = if_call(&f, y); VF_ASSERT(r2 == sp_call_result(sp_call_view(of), y) && sp_call_logged(of, &l, &o2, y), "a second call sees the state left by the first");
+  VF_REACH(); }
+
+/*@GROUP name=ipf_widen props=C20,C02,C05 kind=F@*/
+void h_ipf_widen(void) { VF_INPUT(Log, ls); ARBF(s, &ls); VF_INPUT(IFW, t); VF_INPUT_BOOL(mv); VF_INPUT(int, x); fview_t os = fview(&s); Log o = ls;
+  if (mv) ifw_move(&t, &s); else ifw_copy(&t, &s);
+  VF_ASSERT(fview_eq(fview_w(&t), os) && ifw_bool(&t) == (os.kind != 0), "inplace_function<int(int),32>(inplace_function<int(int),16> const& / &&): target == old source");
+  VF_ASSERT(fview_eq(fview(&s), mv ? fview_empty() : os) && log_eq(&ls, &o), "copy leaves the source unchanged; move leaves it empty; nothing is called");
+  if (os.kind != 0) { int r = ifw_call(&t, x); VF_ASSERT(r == sp_call_result(os, x) && sp_call_logged(os, &ls, &o, x) && fview_eq(fview_w(&t), sp_call_view(os)), "the widened copy calls an equivalent target");
+    if (!mv) VF_ASSERT(fview_eq(fview(&s), os), "independent state"); }
+  VF_REACH(); }
+
+/* ---- C05: the call operator of an empty wrapper trips the contract check, nothing is called ---------------------------- */
+/*@GROUP name=viol_ipf_call props=C05,C20,C02 kind=F@*/
+void h_viol_ipf_call(void) { VF_INPUT(Log, l); VF_INPUT(Log, gl); ARBF(f, &l); VF_INPUT(int, x); VF_INPUT(unsigned char, how); VF_INPUT(IF, g); __CPROVER_assume(how <= 3); vf_glog = gl;
+  /* every way of being empty: arbitrary empty state, default / nullptr constructed, moved-from, assigned nullptr (the storage may still hold the bytes of a former callable) */
+  if (how == 0) __CPROVER_assume(f_sel == 0);
+  else if (how == 1) if_default(&f);
+  else if (how == 2) if_move(&g, &f);
+  else if_assign_null(&f);
+  VF_ASSERT(OBSERVERS(f, 0), "C20: an empty wrapper reports empty");
+  vf_snap_log = l; vf_snap_log_of = &l; vf_snap_glog = vf_glog; vf_snap_f = f; vf_snap_f_of = &f; vf_expect_handler = 1;
+  if_call(&f, x);
+  VF_NORETURN_EXPECTED(); }
+
+/* ==== switched off until the tool chain supports the construct (see driver.cpp; enable with variant defs) ================ */
+/*@GROUP name=tuple_cat props=C20,C02 kind=F when=VF_TUPLE_CAT@*/
+#define EL(t, i) ((t)._impl.b##i._value)
+void h_tuple_cat(void) { VF_INPUT(Tic, a); VF_INPUT(T3, b); VF_INPUT(T3, c); VF_INPUT(Pii, p);
+  VF_INPUT(struct etl_tuple_int_char, r1); VF_INPUT(struct etl_tuple_int_char_int_int_int, r2); VF_INPUT(struct etl_tuple_int_int_int_int_char_int_int_int, r3); VF_INPUT(struct etl_tuple_int_int_int_char, r4);
+  t_cat1(&r1, &a); VF_ASSERT(EL(r1, 0) == TIC0(a) && EL(r1, 1) == TIC1(a), "tuple_cat(t) == t");
+  t_cat2(&r2, &a, &b); VF_ASSERT(EL(r2, 0) == TIC0(a) && EL(r2, 1) == TIC1(a) && EL(r2, 2) == T3_0(b) && EL(r2, 3) == T3_1(b) && EL(r2, 4) == T3_2(b), "tuple_cat(t,u): the elements of t followed by the elements of u, in order");
+  t_cat3(&r3, &b, &a, &c); VF_ASSERT(EL(r3, 0) == T3_0(b) && EL(r3, 1) == T3_1(b) && EL(r3, 2) == T3_2(b) && EL(r3, 3) == TIC0(a) && EL(r3, 4) == TIC1(a) && EL(r3, 5) == T3_0(c) && EL(r3, 6) == T3_1(c) && EL(r3, 7) == T3_2(c), "tuple_cat(t,u,v): concatenation in argument order");
+  t_cat_pair(&r4, &p, &a); VF_ASSERT(EL(r4, 0) == p.first && EL(r4, 1) == p.second && EL(r4, 2) == TIC0(a) && EL(r4, 3) == TIC1(a), "tuple_cat(pair, tuple)");
+  VF_REACH(); }
+
+/*@GROUP name=invoke_memptr props=C20,C02 kind=F when=VF_MEMPTR@*/
+void h_invoke_memptr(void) { VF_INPUT(Log, l); VF_INPUT(int, x); VF_INPUT(int, k); VF_INPUT(int, d); VF_INPUT(unsigned char, w); __CPROVER_assume(w <= 4); Log o = l; struct vf_Obj ob; ob.log = &l; ob.k = k; ob.data = d;
+  if (w <= 2) { int r = w == 0 ? iv_memfn(&ob, x) : (w == 1 ? iv_memfn_ptr(&ob, x) : iv_memfn_ref(&ob, x));
+    VF_ASSERT(logged1(&l, &o, x) && r == (w == 1 ? (x ^ k ^ 1) : (x ^ k)), "invoke(&C::f, obj / &obj / ref(obj), x): the member function is called exactly once on that object with x, result unchanged"); }
+  else if (w == 3) VF_ASSERT(iv_memdata(&ob) == &ob.data && log_eq(&l, &o), "invoke(&C::m, obj) is obj.m itself");
+  else VF_ASSERT(iv_memdata_ptr(&ob) == d && log_eq(&l, &o), "invoke(&C::m, &obj) delivers obj.m");
+  VF_ASSERT(ob.log == &l && ob.k == k && ob.data == d, "the object is unchanged");
+  VF_REACH(); }
